@@ -110,18 +110,23 @@ def mkOut (n : Nat) (input : List Obj) (v : Option Ver) : List Obj :=
     | some o => ⟨o.id, v.getD o.ver⟩
     | none => ⟨900 + j, v.getD ((input.head?.map (·.ver)).getD [])⟩
 
-/-- one returned object per letter; the `j`-th starts from the `j`-th input object (fresh beyond) -/
-def mkMixed (letters : List Char) (input : List Obj) (v desired : Ver) : List Obj :=
+/-- one returned object per letter, as raw JSON; the `j`-th starts from the `j`-th input object
+(fresh beyond). An input object of the empty version is handed on as one without `apiVersion`. -/
+def mkMixedRaw (letters : List Char) (input : List Obj) (v desired : Ver) : List RawObj :=
   (List.range letters.length).map fun j =>
     let base : Obj := match input[j]? with
       | some o => o
       | none => ⟨900 + j, (input.head?.map (·.ver)).getD []⟩
     match letters[j]? with
-    | some 'c' => ⟨base.id, v⟩
-    | some 'd' => ⟨base.id, desired⟩
-    | some 'o' => base
-    | some 'n' => ⟨base.id, []⟩
-    | _ => ⟨0, []⟩
+    | some 'c' => .obj base.id (some v)
+    | some 'd' => .obj base.id (some desired)
+    | some 'o' => .obj base.id (if base.ver.isEmpty then none else some base.ver)
+    | some 'n' => .obj base.id none
+    | some 'b' => .obj 0 none
+    | _ => .null
+
+def mkMixed (letters : List Char) (input : List Obj) (v desired : Ver) : List Obj :=
+  (mkMixedRaw letters input v desired).map RawObj.decode
 
 def interp (group desired : Ver) (it : Item) (r : Rule) (input : List Obj) : HookOut :=
   match it with
